@@ -68,6 +68,10 @@ func alphabet(mode string) []opDesc {
 	ops = append(ops, opDesc{Kind: "badsub", Client: 0, Filter: "a/b/"})   // key without read permission
 	ops = append(ops, opDesc{Kind: "badunsub", Client: 0, Filter: "a/b/"}) // key without read permission
 	ops = append(ops, opDesc{Kind: "badparse", Client: 0, Filter: "a b/"}) // unparsable channel
+	// one packet carrying a failing topic followed by a valid one: the failure must not affect the other
+	for _, f := range []string{"a/b/", "b/a/"} {
+		ops = append(ops, opDesc{Kind: "msub", Client: 0, Filter: f}, opDesc{Kind: "munsub", Client: 0, Filter: f})
+	}
 	return ops
 }
 
@@ -197,6 +201,30 @@ func (in *inst) Apply(op int) {
 			in.subs[o.Client][o.Filter] = true
 		}
 		c.Drain()
+	case "msub":
+		codes, acked := c.SubscribeMulti(in.w.wo+"/a/", in.w.rw+"/"+o.Filter)
+		ps := c.Drain()
+		if !acked {
+			in.fail("no-suback", "SUBSCRIBE was not acknowledged")
+			return
+		}
+		if len(codes) != 2 || codes[0] != 0x80 || codes[1] == 0x80 || errorReplies(ps) != 1 {
+			in.fail("multi-topic-subscribe", fmt.Sprintf("SUBSCRIBE [no-permission, %s] answered codes %v with %d error replies; expected [0x80, granted] and one error", o.Filter, codes, errorReplies(ps)))
+			return
+		}
+		in.subs[o.Client][o.Filter] = true
+	case "munsub":
+		acked := c.UnsubscribeMulti(in.w.wo+"/a/", in.w.rw+"/"+o.Filter)
+		ps := c.Drain()
+		if !acked {
+			in.fail("no-unsuback", "UNSUBSCRIBE was not acknowledged")
+			return
+		}
+		if errorReplies(ps) != 1 {
+			in.fail("multi-topic-unsubscribe", fmt.Sprintf("UNSUBSCRIBE [no-permission, %s] produced %d error replies, expected one", o.Filter, errorReplies(ps)))
+			return
+		}
+		delete(in.subs[o.Client], o.Filter) // the valid topic of an acknowledged UNSUBSCRIBE is removed
 	case "badsub":
 		code, acked := c.Subscribe(in.w.wo + "/" + o.Filter)
 		ps := c.Drain()
